@@ -188,6 +188,11 @@ class Evolver:
                     "value": self.simple_type(depth + 1, False)}
         if k == "map-intkey":
             return {"kind": "map", "key": {"kind": "base", "name": "integer"}, "value": self.simple_type(depth + 1, False)}
+        if k == "map-enumkey":
+            pool = self.new_enums * 2 + self.closed_enums + [e["name"] for e in self.doc["enumerations"] if e.get("supportsCustomValues")]
+            if not pool:
+                return {"kind": "map", "key": {"kind": "base", "name": "integer"}, "value": {"kind": "base", "name": "string"}}
+            return {"kind": "map", "key": {"kind": "reference", "name": self.pick(pool)}, "value": self.simple_type(depth + 1, False)}
         if k == "string-literal":
             return {"kind": "stringLiteral", "value": "vf" + self.pick(WORDS_U)}
         if k == "tuple":
@@ -309,11 +314,11 @@ class Evolver:
             # productions that once exposed a defect (kept as a standing floor)
             "message-no-typename", "rust-keyword-name", "base-regexp", "empty-struct-property", "request-no-typename",
             "matrix", "same-name-different-nullness", "shared-registration-method", "diamond",
-            "message-regopts-no-params", "explicit-closed-enum", "and-registration-options", "deep-mixin", "confusing-message-names", "exotic-enum-values"]
+            "message-regopts-no-params", "explicit-closed-enum", "and-registration-options", "deep-mixin", "confusing-message-names", "exotic-enum-values", "message-map-keys"]
     RUST_AND_PYTHON_KEYWORDS = ["in", "for", "as", "if", "else", "while", "continue", "break", "return", "async", "await", "try", "yield"]
 
     MATRIX_PRODUCTIONS = ["base", "ref-struct", "ref-enum", "ref-alias", "array", "map", "tuple", "ornull-first", "ornull-last", "literal",
-                          "array-literal", "ornull-literal", "array-ornull", "map-ornull", "string-literal", "ornull-array-literal", "map-intkey"]
+                          "array-literal", "ornull-literal", "array-ornull", "map-ornull", "string-literal", "ornull-array-literal", "map-intkey", "map-enumkey"]
 
     def e_matrix(self) -> None:
         """new structures whose properties cover every pair (name kind x type production x required/optional):
@@ -400,6 +405,25 @@ class Evolver:
             return self.e_override_chain()
         if focus == "message":
             return self.e_new_message()
+        if focus == "message-map-keys":
+            # maps keyed by integers / enumerations, reachable from a message (so that test vectors exist for them)
+            name = self.fresh_type_name("VfKeyed")
+            local: set = set()
+            props = []
+            for prod, opt in (("map-intkey", False), ("map-enumkey", True), ("map-enumkey", False), ("map-intkey", True)):
+                props.append(self.new_property(local, depth=1, allow_literal=False, force=prod, optional=opt))
+                local.add(props[-1]["name"])
+            self.doc["structures"].append({"name": name, "properties": props})
+            self.keep_inhabitable(props)
+            self.new_structs.append(name)
+            self.edits.append({"edit": "E1-new-structure", "name": name, "properties": [p["name"] for p in props]})
+            self.counter += 1
+            msg = {"method": f"vf/keyed{self.counter}", "messageDirection": "both", "params": {"kind": "reference", "name": name}}
+            if self.draw(st.booleans()):
+                msg["typeName"] = self.fresh_type_name("Vm") + "Notification"
+            self.doc["notifications"].append(msg)
+            self.edits.append({"edit": "E6-new-message", "method": msg["method"], "request": False})
+            return
         if focus == "exotic-enum-values":
             name = self.fresh_type_name("Ve")
             vals = [("Plain", "plain"), ("Accent", "caf\u00e9"), ("Astral", "smile\U0001F600"), ("Dotted", "a.b-c"), ("Spaced", "two words")]
